@@ -291,6 +291,7 @@ func runCase(cs *caseSpec, rng *rand.Rand, replay []int, record bool) (sched []i
 	s.UnlockYields = cs.yieldUnlock
 	step := 0
 	rankBad := false
+	shapeMidBad := false // quiescent-instant shape oracle (C08) already reported in this run
 	rankStates := 0
 	// C07 oracle (Lean: C07_write_frame): the step of task g that runs between two
 	// scheduling decisions changes own fields only of nodes whose mutex g held when
@@ -337,6 +338,27 @@ func runCase(cs *caseSpec, rng *rand.Rand, replay []int, record bool) (sched []i
 				snapNow = tr.Snapshot()
 			}
 			stepSnaps = append(stepSnaps, shape.Canon(snapNow, tr.FmtKey, fmtVal))
+		}
+		// C08 "whenever the tree is quiescent", not only at the end of the run: an operation in
+		// flight always holds a mutex (rootMutex, then hand over hand down to the leaf; a resting
+		// cursor holds its leaf), so a scheduler state in which NO task holds any mutex is a
+		// quiescent instant and the full shape invariant must hold of the snapshot (R6-C08-d: a
+		// stale separator that the next operation repairs is invisible at the end of the run)
+		if snapNow != nil && cs.order >= 4 && !shapeMidBad {
+			anyHeld := false
+			for ti := range cs.threads {
+				if len(s.HeldBy(ti)) > 0 {
+					anyHeld = true
+					break
+				}
+			}
+			if !anyHeld {
+				for _, p := range shape.Check(snapNow, cs.order, tr.FmtKey, tr.Less) {
+					oracles = append(oracles, oracleMsg{"shape", fmt.Sprintf("at a quiescent instant (no mutex held, before decision %d): %s", len(enabledSets), p)})
+					shapeMidBad = true
+					break
+				}
+			}
 		}
 		// C06 oracle (Lean: Ranked (levelRank tree)): in this state every task parked in
 		// Lock() wants a mutex that comes after all it holds in the level order of the tree
